@@ -5,7 +5,7 @@
         ... before any use: a use is only accepted when the id is *visible*, and only ids defined
         earlier in the pipeline can be visible                                 -> DUndefined / DNotVisible
      2. every id used in a transform, sort, partition, window or expression is visible at that point of
-        its pipeline.  Visibility: From and Join add their instance columns, Compute adds its id, Select cs
+        its pipeline (DNotVisible: defined in this relation; DForeign: defined only in another one).  Visibility: From and Join add their instance columns, Compute adds its id, Select cs
         narrows to cs, Aggregate narrows to partition ++ compute, Append adds nothing (its bottom columns
         are defined but never addressable), a Loop body starts from what is visible at the Loop and what it
         defines or narrows does not escape it                                  -> DNotVisible
@@ -17,8 +17,8 @@
    [rq_diags] returns every violated clause with the table position [w] (index in the table list; the main
    relation has index = number of tables), the use site and the id; [rq_wf q] = no diagnostic.
    [rq_wf_lax] tolerates exactly one kind of diagnostic: a *carried sort* (Take.sort / Window.sort) naming an id
-   that is defined but not visible there -- the class of known findings C16-F1/F2; the back-end lookups are still
-   total for it (Proofs/RqWfProofs.v).
+   that is defined in the same relation but not visible there -- the class of known finding C16-F1; the back-end
+   lookups are still total for it (Proofs/RqWfProofs.v).
    Also here: the lookups a back end performs on an RQ (sql/pq/context.rs: column_decls[&cid],
    table_decls.get(tid)), as [lookup_cid] / [lookup_tid] over the same data. *)
 From Coq Require Import List NArith Bool.
@@ -34,7 +34,8 @@ Inductive diag :=
 | DDupCid (c : cid)
 | DDupTid (t : tid)
 | DUndefined (w : N) (s : site) (c : cid)
-| DNotVisible (w : N) (s : site) (c : cid)
+| DNotVisible (w : N) (s : site) (c : cid)   (* defined in this relation, but not visible at the use *)
+| DForeign (w : N) (s : site) (c : cid)      (* defined, but only inside another relation's pipeline *)
 | DTidUndeclared (w : N) (t : tid)
 | DNoFrom (w : N)
 | DNoSelect (w : N)
@@ -42,11 +43,13 @@ Inductive diag :=
 
 Section Check.
   Variable defs : list cid.     (* all_defs of the whole query *)
+  Variable ldefs : list cid.    (* the ids defined inside the relation being checked *)
   Variable w : N.               (* position of the relation being checked *)
   Variable decl : list tid.     (* table ids declared before this relation *)
 
   Definition check_use (vis : list cid) (s : site) (c : cid) : list diag :=
-    if memN c vis then [] else [if memN c defs then DNotVisible w s c else DUndefined w s c].
+    if memN c vis then []
+    else [if memN c defs then (if memN c ldefs then DNotVisible w s c else DForeign w s c) else DUndefined w s c].
 
   Definition check_uses (vis : list cid) (s : site) (cs : list cid) : list diag :=
     flat_map (check_use vis s) cs.
@@ -112,7 +115,8 @@ End Check.
 Fixpoint tables_diags (defs : list cid) (i : N) (decl : list tid) (ts : list table_decl) : list diag :=
   match ts with
   | [] => []
-  | t :: ts' => relation_diags defs i decl (t_relation t) ++ tables_diags defs (i + 1) (decl ++ [t_id t]) ts'
+  | t :: ts' => relation_diags defs (relation_defs (t_relation t)) i decl (t_relation t)
+                ++ tables_diags defs (i + 1) (decl ++ [t_id t]) ts'
   end.
 
 Definition table_ids (q : rq) : list tid := map t_id (q_tables q).
@@ -122,11 +126,12 @@ Definition rq_diags (q : rq) : list diag :=
   map DDupCid (dups defs)
   ++ map DDupTid (dups (table_ids q))
   ++ tables_diags defs 0 [] (q_tables q)
-  ++ relation_diags defs (N.of_nat (length (q_tables q))) (table_ids q) (q_relation q).
+  ++ relation_diags defs (relation_defs (q_relation q)) (N.of_nat (length (q_tables q))) (table_ids q) (q_relation q).
 
 Definition rq_wf (q : rq) : bool := match rq_diags q with [] => true | _ => false end.
 
-(* the one relaxation (known findings C16-F1/F2): a carried sort naming a defined but invisible id *)
+(* the one relaxation (known finding C16-F1): a carried sort naming an id of the same relation that is no longer
+   visible.  A carried sort naming an id of ANOTHER relation (DForeign; finding C16-F2, fixed by 8f24a64) is not tolerated. *)
 Definition lax_diag (d : diag) : bool :=
   match d with
   | DNotVisible _ STakeSort _ | DNotVisible _ SWinSort _ => true
